@@ -88,7 +88,7 @@ type busWriter struct {
 }
 
 func (w *busWriter) Write(p []byte) (n int, err error) {
-	if uint32(len(p)) >= w.o+w.end {
+	if uint32(len(p)) > w.end-(w.start+w.o) {
 		err = io.ErrUnexpectedEOF
 		return
 	}
